@@ -12,6 +12,7 @@ import (
 
 	"github.com/zenon-network/go-zenon/chain/nom"
 	"github.com/zenon-network/go-zenon/common/crypto"
+	"github.com/zenon-network/go-zenon/common/db"
 	"github.com/zenon-network/go-zenon/common/types"
 	"github.com/zenon-network/go-zenon/vm/constants"
 	"github.com/zenon-network/go-zenon/vm/embedded/definition"
@@ -78,6 +79,15 @@ func (s *c10state) bridgePair(ct types.Address, r *nom.AccountBlock, chain uint3
 		}
 	}
 	return nil
+}
+
+// stateAfter: the contract's storage right after receive r (several receives of one account can be processed in one go:
+// the frontier state may already include later ones); the frontier state where that state is no longer served.
+func (s *c10state) stateAfter(ct types.Address, r *nom.AccountBlock) db.DB {
+	if st := s.h.A.Chain.GetAccountStore(ct, r.Identifier()); st != nil {
+		return st.Storage()
+	}
+	return s.h.A.Chain.GetFrontierAccountStore(ct).Storage()
 }
 
 func windowOpen(now, reg, lock, revoke int64) bool {
@@ -283,7 +293,7 @@ func (s *c10state) process(ct types.Address, r, snd *nom.AccountBlock, merr erro
 			// registration consumes deposited QSR (burned): the deposit record follows the contract's
 			k := "pillar/" + snd.Address.String()
 			d := snd.Address
-			if dep, err := definition.GetQsrDeposit(s.h.A.Chain.GetFrontierAccountStore(types.PillarContract).Storage(), &d); err == nil {
+			if dep, err := definition.GetQsrDeposit(s.stateAfter(ct, r), &d); err == nil {
 				s.deposits[k] = new(big.Int).Set(dep.Qsr)
 			}
 		}
@@ -426,7 +436,7 @@ func (s *c10state) process(ct types.Address, r, snd *nom.AccountBlock, merr erro
 				amount: new(big.Int).Set(snd.Amount), amount2: new(big.Int).Set(constants.SentinelQsrDepositAmount), regTime: now}
 			k := "sentinel/" + snd.Address.String()
 			d := snd.Address
-			if dep, err := definition.GetQsrDeposit(s.h.A.Chain.GetFrontierAccountStore(types.SentinelContract).Storage(), &d); err == nil {
+			if dep, err := definition.GetQsrDeposit(s.stateAfter(ct, r), &d); err == nil {
 				s.deposits[k] = new(big.Int).Set(dep.Qsr)
 			}
 		}
